@@ -43,6 +43,14 @@ func Overlay() string {
 			os.WriteFile(dst, []byte(gen), 0o644)
 			repl[filepath.Join(RepoDir, "checkers", "analyzer", "verif_reset.go")] = dst
 		}
+		// the call of program.isGenerated is generated from its current signature in each main (a refactoring
+		// may add e.g. a file-name parameter)
+		for _, m := range []string{"go-critic", "gocritic"} {
+			dst := filepath.Join(WorkDir(), "gen", m, "verif_isgen.go")
+			os.MkdirAll(filepath.Dir(dst), 0o755)
+			os.WriteFile(dst, []byte(genIsGeneratedCall(filepath.Join(RepoDir, "cmd", m))), 0o644)
+			repl[filepath.Join(RepoDir, "cmd", m, "verif_isgen.go")] = dst
+		}
 		for k, v := range ExtraOverlay {
 			repl[k] = v
 		}
@@ -182,4 +190,46 @@ func genAnalyzerReset() string {
 	}
 	b.WriteString("}\n")
 	return b.String()
+}
+
+// genIsGeneratedCall writes verifIsGenerated(p, name, f), which calls (p *program).isGenerated with the
+// arguments its current signature asks for: every string parameter gets the file name, every *ast.File
+// parameter the file. A signature it cannot serve yields a stub that does not compile on purpose with a
+// telling name (the harness then reports a broken check, not a violation).
+func genIsGeneratedCall(dir string) string {
+	fset := token.NewFileSet()
+	pkgs, err := parser.ParseDir(fset, dir, func(fi os.FileInfo) bool { return !strings.HasSuffix(fi.Name(), "_test.go") }, 0)
+	args := []string{"f"}
+	if err == nil {
+		for _, p := range pkgs {
+			for _, f := range p.Files {
+				for _, d := range f.Decls {
+					fd, ok := d.(*ast.FuncDecl)
+					if !ok || fd.Recv == nil || fd.Name.Name != "isGenerated" {
+						continue
+					}
+					args = nil
+					for _, fl := range fd.Type.Params.List {
+						a := "verifUnknownParameterOfIsGenerated"
+						switch t := fl.Type.(type) {
+						case *ast.Ident:
+							if t.Name == "string" {
+								a = "name"
+							}
+						case *ast.StarExpr:
+							a = "f"
+						}
+						n := len(fl.Names)
+						if n == 0 {
+							n = 1
+						}
+						for i := 0; i < n; i++ {
+							args = append(args, a)
+						}
+					}
+				}
+			}
+		}
+	}
+	return "//go:build verif\n\n// Generated per build by the verification harness (never committed to /repo).\npackage main\n\nimport \"go/ast\"\n\nfunc verifIsGenerated(p *program, name string, f *ast.File) bool {\n\t_ = name\n\treturn p.isGenerated(" + strings.Join(args, ", ") + ")\n}\n"
 }
